@@ -47,8 +47,9 @@ C15's block arrays vs Mathlib matrices (`rd_matToArr`); C01's errors are field e
 
 WHAT DOES NOT COMPOSE / HYPOTHESES THAT STAY.  LOBPCG (`lobpcg_topk_precondition`): its top-k pairs are unconstrained inputs
 of C01's model and C01 proves nothing about the deflated problem's relation to the original one, so there is no
-certificate to carry through the gate; not routed.  The eigh form assumes no padding inside the automaton (C08 treats eigh
-padding separately under `KernelPadOK`).  External kernels stay hypotheses wherever the per-property theorems have them
+certificate to carry through the gate; not routed.  The slot-level eigh form with C01's `eighRoot` assumes no padding; eigh
+WITH the padded batch is covered on C08's eigh model, now without `KernelPadOK`
+(`distributed_equals_single_device_eigh_unconditional`, `tree_step_is_map_of_param_steps_eigh`: only `KernelMeetsSpec`).  External kernels stay hypotheses wherever the per-property theorems have them
 (`SvdSpec`, `EighSpec` / `EighKernelOK`, scalar roots); `MaxEvPadOK` (discharged for power iteration and the constant);
 the FD bracket includes the per-step ridge shift `_fd_update_root` adds (as in C09).  Floating-point rounding, XLA batch
 determinism and finiteness in IEEE arithmetic remain oracle-only, as in the per-property checks.
@@ -712,6 +713,59 @@ theorem tree_step_independent_of_devices [Field α] [LinearOrder α] [IsStrictOr
     treeStepBatched rootB filler D upd mk dims cfg ps inp = treeStepBatched rootB filler' D' upd mk dims cfg ps inp := by
   rw [treeStepBatched_eq_indep rootB hpad filler D hD upd mk dims hroot cfg ps inp,
     treeStepBatched_eq_indep rootB hpad filler' D' hD' upd mk dims hroot cfg ps inp]
+
+/-- (3) for the eigh root WITHOUT `KernelPadOK` (C08 `root_padding_invariant_eigh_unconditional`): it suffices that the
+eigen-solver's answers meet the `eigh` specification (`KernelMeetsSpec` / `DsEighSpec`: orthonormal eigenvectors,
+reconstruction of the masked regularised matrix, the eigenvalues zeroed by `e *= flip(ix)` are the zero ones) on the
+matrices it is actually given — every statistic padded to any `max_size`, and unpadded — and `invE 0 = 0`.  Whatever
+decomposition of `blockdiag(R, 0)` the kernel returns, `D` devices compute the single-device unpadded root. -/
+theorem distributed_equals_single_device_eigh_unconditional [Field α] [LinearOrder α] [IsStrictOrderedRing α]
+    (kernel : Kernel α) (invE : α → α) (h0 : invE 0 = 0) (ridgeOf : Nat → A2 α → α)
+    (hspec : ∀ (N s : Nat) (a : A2 α), s ≤ N → KernelMeetsSpec kernel N s (ridgeOf s a) (padSq s N a))
+    (hspec0 : ∀ (s : Nat) (a : A2 α), KernelMeetsSpec kernel s s (ridgeOf s a) a)
+    (filler : Stat α) (D : Nat) (hD : 1 ≤ D) (leaves : List (List (Stat α))) :
+    distributedTreeRoots (fun N s a => paddedEighRoot kernel invE N s (ridgeOf s a) a) filler D leaves =
+      leaves.map (·.map fun st => eighRootA kernel invE st.size st.size (ridgeOf st.size st.dat) st.dat) := by
+  have hroot : ∀ N s a, s ≤ N → paddedEighRoot kernel invE N s (ridgeOf s a) a = eighRootA kernel invE s s (ridgeOf s a) a :=
+    fun N s a hs => (PrecondVerif.C08.root_padding_invariant_eigh_unconditional kernel invE h0 hs _ a (hspec N s a hs)
+      (hspec0 s a)).1
+  rw [distributed_equals_single_device _ (fun N s a hs => by
+    show paddedEighRoot kernel invE N s (ridgeOf s a) a = paddedEighRoot kernel invE s s (ridgeOf s a) a
+    rw [hroot N s a hs, hroot s s a (le_refl s)]) filler D hD]
+  congr 1
+  funext leaf
+  apply List.map_congr_left
+  intro st _
+  exact hroot _ _ _ (le_refl _)
+
+/-- **eigh with padding inside the automaton, on a parameter tree.**  `eighBatchRoot`: C08's eigh root in the batch position
+(pad to the tree-wide `max_size`, `padding_start = size`, cut) with a reported error computed from the statistic and that
+root; every slot's own routine is the same thing unpadded.  Under the kernel specification above (no `KernelPadOK`) the
+batched, distributed tree step equals the per-leaf steps — so the generic slot / parameter theorems
+(`stored_preconditioner_is_initial_or_certified_root`, `update_uses_certified_roots`) hold verbatim for every leaf of a
+tree stepped with `eigh=True` through the padded batch, as `tree_step_is_map_of_param_steps_newton` gives for Newton. -/
+theorem tree_step_is_map_of_param_steps_eigh [Field α] [LinearOrder α] [IsStrictOrderedRing α] [Inhabited α]
+    (kernel : Kernel α) (invE : α → α) (h0 : invE 0 = 0) (ridgeOf : Nat → A2 α → α)
+    (hspec : ∀ (N s : Nat) (a : A2 α), s ≤ N → KernelMeetsSpec kernel N s (ridgeOf s a) (padSq s N a))
+    (hspec0 : ∀ (s : Nat) (a : A2 α), KernelMeetsSpec kernel s s (ridgeOf s a) a)
+    (errOf : Nat → A2 α → A2 α → Gate.XF) (thr : Gate.XF) (filler : Stat α) (D : Nat) (hD : 1 ≤ D)
+    (upd : Nat → Nat → List α → List α → DShampoo.PState α → List (DShampoo.Mx α) → List (DShampoo.Mx α) →
+      Option (DShampoo.TOut α))
+    (G : Nat → DShampoo.Geom) (w1 w2 : α) (dims : Nat → Nat → Nat) (cfg : Schedule.DSCfg)
+    (ps : List (ParamState α)) (inp : Nat → List α × List α) :
+    let mk : Nat → SlotK α := fun l => slotKernelsWith thr
+      (fun i L _ _ => eighBatchRoot kernel invE ridgeOf errOf (dims l i) (dims l i) (tabM (dims l i) L)) (G l) w1 w2
+    treeStepBatched (eighBatchRoot kernel invE ridgeOf errOf) filler D upd mk dims cfg ps inp =
+      treeStepIndep upd mk cfg ps inp := by
+  intro mk
+  have hroot : ∀ N s a, s ≤ N → paddedEighRoot kernel invE N s (ridgeOf s a) a = eighRootA kernel invE s s (ridgeOf s a) a :=
+    fun N s a hs => (PrecondVerif.C08.root_padding_invariant_eigh_unconditional kernel invE h0 hs _ a (hspec N s a hs)
+      (hspec0 s a)).1
+  exact treeStepBatched_eq_indep (eighBatchRoot kernel invE ridgeOf errOf)
+    (fun N s a hs => by
+      unfold eighBatchRoot
+      rw [hroot N s a hs, hroot s s a (le_refl s)]) filler D hD upd mk dims (fun l i L prev => rfl) cfg ps inp
+
 
 /-- concrete instance: 3 statistics of sizes 2, 5, 3 in two leaves on 4 devices (one filler), `max_size = 5`; a routine
 that only reports (size, first diagonal entry) is padding invariant, and every leaf gets its own results back -/
